@@ -39,6 +39,18 @@ func (u *SocksChannel) String() string {
 	return fmt.Sprintf("%v:%v", u.Name(), "socks")
 }
 
+// socksServerConn is the SOCKS server's end of the in-process pipe. When the proxied target has finished, the SOCKS
+// library half-closes the connection towards its client through CloseWrite; without that method the client would
+// never see end-of-stream when the target closes first.
+type socksServerConn struct {
+	streams.Connection
+	writer io.Closer
+}
+
+func (c *socksServerConn) CloseWrite() error {
+	return c.writer.Close()
+}
+
 func (u *SocksChannel) OpenConnection() (net.Conn, error) {
 	conf := &socks5.Config{}
 	server, err := socks5.New(conf)
@@ -55,7 +67,10 @@ func (u *SocksChannel) OpenConnection() (net.Conn, error) {
 	var serverPipe streams.Connection
 
 	clientPipe = streams.NewSimulatedConnection(p1, streams.Localhost, streams.Localhost)
-	serverPipe = streams.NewSimulatedConnection(p2, streams.Localhost, streams.Localhost)
+	serverPipe = &socksServerConn{
+		Connection: streams.NewSimulatedConnection(p2, streams.Localhost, streams.Localhost),
+		writer:     p1Writer,
+	}
 
 	clientPipe = streams.NewNamedConnection(clientPipe, u.String())
 
